@@ -116,7 +116,7 @@ static void run_case(const vh::Case &cs, Worker &w) {
                 break;
             }
             case 1: {
-                if (op.size() != 3 || !c.gen || c.outstanding || op[1] < 0 || op[1] > 6 || (A && op[1] == 1)) { reject(x); break; }
+                if (op.size() < 3 || !c.gen || c.outstanding || op[1] < 0 || op[1] > 6 || (A && op[1] == 1)) { reject(x); break; }   // fields after the argument = pop preference, used by the model only
                 int style = (int)op[1];
                 c.argv = (int)op[2];
                 c.res_ready = false;
@@ -136,7 +136,7 @@ static void run_case(const vh::Case &cs, Worker &w) {
                 break;
             }
             case 2: {
-                if (op.size() != 4 || !x.built || op[1] < 0 || (size_t)op[1] >= x.srcs.size() || !x.srcs[op[1]]->prom) { reject(x); break; }
+                if (op.size() < 4 || !x.built || op[1] < 0 || (size_t)op[1] >= x.srcs.size() || !x.srcs[op[1]]->prom) { reject(x); break; }
                 int v = (int)op[2];
                 promise<int> p = std::move(x.srcs[op[1]]->prom);
                 if (op[3] == 1) {
